@@ -320,12 +320,35 @@ func (g *pgen) gen() string {
 				case coin && g.r.Chance(1, 3):
 					pair(ex, ey, true)
 					g.hit("curve:cp2-on-end")
+				case coin && g.r.Chance(1, 2):
+					// near miss: only ONE coordinate of the second control point agrees with an end point (a real curve)
+					if g.r.Bool() {
+						pair(ex, cy, true)
+					} else {
+						pair(cx, ey, true)
+					}
+					g.hit("curve:cp2-half-on-end")
 				default:
 					pair(cx, cy, false)
 				}
 				g.put(exs, 'n')
 				g.put(eys, 'n')
 			case 'S':
+				if coin && g.r.Chance(1, 4) {
+					// the end point first, the control point sharing one coordinate with it and one with the start
+					exs, eys := g.value(cx-ox, false), g.value(cy-oy, false)
+					exv, _ := strconv.ParseFloat(exs, 64)
+					eyv, _ := strconv.ParseFloat(eys, 64)
+					if g.r.Bool() {
+						pair(exv+ox, cy, true)
+					} else {
+						pair(cx, eyv+oy, true)
+					}
+					g.put(exs, 'n')
+					g.put(eys, 'n')
+					g.hit("curve:cp2-half-on-end")
+					break
+				}
 				pair(cx, cy, coin && g.r.Chance(1, 3))
 				pair(cx, cy, coin && g.r.Chance(1, 6))
 			case 'Q':
